@@ -217,9 +217,9 @@ def mutated_files(item):
             candidates = []
             if offset < len(base):
                 candidates.append(base[:offset] + base[offset + 1:])
-                for character in "x\r\n ":
+                for character in "x\r\n \x0c\u2028":
                     candidates.append(base[:offset] + character + base[offset + 1:])
-            for character in "x\r\n ":
+            for character in "x\r\n \x0c\u2028":
                 candidates.append(base[:offset] + character + base[offset:])
             for text in candidates:
                 kinds[judge_complete(text, widths, delimiter, part)] += 1
@@ -261,7 +261,7 @@ def run(ctx):
     ctx.bound = {"bounded enumeration": "all strings over {a,b,CR,LF} up to length %d x %d width lists x 5 delimiter settings" % (max_length, len(width_lists(ctx.tier))),
                  "fixpoint search": "%d (width list, delimiter) configurations explored to the fixpoint of the product (reader frame state x specification automata): all inputs of every length over the alphabet ({a,CR,LF} when the record is wider than %d)" % (len(fix_items), 4 if quick else 6)}
     ctx.bound["files opened by the reader"] = "all strings up to length %d x 4 width lists x 5 delimiter settings stored in a file and read through its path" % path_length
-    ctx.bound["single-character mutations"] = "%d (width list, delimiter, record count) files: every deletion, insertion and replacement (x, CR, LF, blank) at every offset, with and without the final delimiter" % len(mutation_items)
+    ctx.bound["single-character mutations"] = "%d (width list, delimiter, record count) files: every deletion, insertion and replacement (x, CR, LF, blank, FF, LS) at every offset, with and without the final delimiter" % len(mutation_items)
     ctx.rule = ("(1) plain enumeration; (3) every single-character mutation of longer well-formed files; (2) BFS over input prefixes, one character at a time, state = snapshot of the fixed_rows generator frame at the blocked read (call-site lines, "
                 "all locals but message-only ones, push-back, unconsumed characters) x greedy and canonical specification states; every visited prefix is also judged as a complete "
                 "input; oracle: returned rows must have the declared widths and reproduce the input with some permitted delimiters, an error is only allowed if the input is not "
